@@ -114,6 +114,8 @@ static void read_abk_playlist(HIO_HANDLE *f, uint32 playlist_offset, struct abk_
     hio_seek(f, playlist_offset, SEEK_SET);
 
     playlist->pattern = (uint16 *) malloc(arraysize * sizeof(uint16));
+    if (playlist->pattern == NULL)
+        return;
 
     playdata = hio_read16b(f);
 
@@ -124,8 +126,16 @@ static void read_abk_playlist(HIO_HANDLE *f, uint32 playlist_offset, struct abk_
 
         if (playlist->length >= arraysize)
         {
+            uint16 *tmp;
             arraysize *= 2;
-            playlist->pattern = (uint16 *) realloc(playlist->pattern , arraysize * sizeof(uint16));
+            tmp = (uint16 *) realloc(playlist->pattern , arraysize * sizeof(uint16));
+            if (tmp == NULL)
+            {
+                free(playlist->pattern);
+                playlist->pattern = NULL;
+                return;
+            }
+            playlist->pattern = tmp;
         }
 
         playlist->pattern[playlist->length++] = playdata;
@@ -382,6 +392,8 @@ static struct abk_instrument* read_abk_insts(HIO_HANDLE *f, uint32 inst_section_
         return NULL;
 
     inst = (struct abk_instrument*) malloc(count * sizeof(struct abk_instrument));
+    if (inst == NULL)
+        return NULL;
     memset(inst, 0, count * sizeof(struct abk_instrument));
 
     for (i = 0; i < count; i++)
@@ -587,6 +599,10 @@ static int abk_load(struct module_data *m, HIO_HANDLE *f, const int start)
      * we need to fail here. */
 
     read_abk_playlist(f, song.playlist_offset[0], &playlist);
+    if (playlist.pattern == NULL)
+    {
+        return -1;
+    }
 
     /* move to the start of the instruments section */
     /* then convert the patterns one at a time. there is a pattern for each channel.*/
